@@ -339,6 +339,13 @@ def c14(scn, obs):
         elif k == 'hook' and o['hook'] == 'on_start_run':
             if o.get('script_id') != displayed:
                 bad.append(('executed-not-displayed', f'run {o["run_no"]} executes script {o.get("script_id")} while the object displays {displayed}'))
+            # ... according to every reporting call of the object at that moment
+            for how in ('shown_statement', 'shown_source', 'shown_lines'):
+                if how in o and o[how] != o.get('script_id'):
+                    bad.append((f'executed-not-displayed:{how[6:]}', f'run {o["run_no"]} executes script {o.get("script_id")} while '
+                                f'{ {"shown_statement": "statement", "shown_source": "get_source()", "shown_lines": "get_source_line()"}[how] } shows {o[how]}'))
+            if 'shown_error' in o:
+                bad.append(('executed-not-displayed:reporting-call-raises', f'a reporting call raised {o["shown_error"]} at the start of run {o["run_no"]}'))
             # the tracing options the run executes with are those frozen at its initialisation
             init = next((x for x in reversed(obs[:o['i']]) if x.get('k') == 'hook' and x['hook'] == 'on_initialize_run'), None)
             for opt in ('trace_threads', 'trace_modules'):
